@@ -698,3 +698,83 @@ example : ∃ c', applyChainRule noRecurse exCtx 1 1 1 (fun g _ => g == 9) (fun 
   ⟨_, rfl, rfl, by decide, ⟨by decide, by decide, by simp [exCtx], by decide⟩, rfl, by decide⟩
 
 end RbModel.Flags
+
+
+/-! ### the reverse-chaining subtable that declines -/
+namespace RbModel.Flags
+open RbModel RbModel.Gsub
+
+/-- **a reverse-chaining substitution that declined flagged what it inspected** (ReverseChainSingleSubst::apply after the
+    coverage test, no out-buffer as for every reverse lookup; `reverseRule_eq` / `C03_ligature_reverse_instrumented_same` is the
+    equation with the subtable).  When it returns `(c', false)` the only effect is
+    `unsafe_to_concat_from_outbuffer(start_index, end_index)`: on a backtrack failure `start_index` is the backward iterator's
+    `unsafe_from` and `end_index = idx + 1` (the lookahead is not run); on a lookahead failure `end_index` is the forward
+    iterator's `unsafe_to`.  Every glyph read — current glyph, backtrack glyphs `[start_index, idx)`, lookahead glyphs
+    `(idx, end_index)`, the skipped ones and the one that made it fail — carries UNSAFE_TO_CONCAT afterwards.
+    No ligature-component path exists here (match_input is not used).  Every font, subtable, buffer. -/
+theorem C04_reverse_fail_flags_inspected (c c' : Ctx) (back ahead : List Cov) (s : Nat)
+    (h : (revMatchI c back ahead >>= revFinish c s) = .ok (c', false))
+    (hidx : c.buf.idx < c.buf.len) (hlen : c.buf.len ≤ c.buf.info.length) (hho : c.buf.haveOutput = false)
+    (hso : c.buf.sepOut = false)
+    (hreq : c.buf.flags &&& Gen.Buf.produceUnsafeToConcat ≠ 0) :
+    ∃ (st e : Nat) (rs : List Rd),
+      revMatchI c back ahead = .ok (false, st, e, rs) ∧ c.buf.outArr = c.buf.info ∧ st ≤ c.buf.idx ∧ c.buf.idx < e ∧ e ≤ c.buf.len ∧
+      c.buf.unsafeToConcatFromOut st (some e) = .ok c'.buf ∧ c' = { c with buf := c'.buf } ∧
+      ∀ x ∈ rs, RevRead c st e (fun i y => ConcatFlagged c'.buf.info i y) x := by
+  cases hm : revMatchI c back ahead with
+  | error er => simp only [hm, bind, Except.bind] at h; cases h
+  | ok v =>
+    obtain ⟨ok, st, e, rs⟩ := v
+    obtain ⟨s1, s2, s3, s4⟩ := revMatchI_span c back ahead ok st e rs hm hidx
+    have hbl : backtrackLen c.buf = c.buf.idx := by simp [backtrackLen, hho]
+    rw [hbl] at s1 s4
+    simp only [hm, bind, Except.bind, revFinish] at h
+    cases ok with
+    | true =>
+      simp only [if_true] at h
+      cases hb : c.buf.unsafeToBreakFromOut st (some e) with
+      | error er => simp [hb] at h
+      | ok b =>
+        simp only [hb] at h
+        cases h1 : setGlyphClass { c with buf := b } s 0 false false with
+        | error er => simp [h1] at h
+        | ok c1 =>
+          simp only [h1] at h
+          cases h2 : Mem.get c1.buf.info c1.buf.idx with
+          | error er => simp [h2] at h
+          | ok cur =>
+            simp only [h2] at h
+            cases h3 : Mem.put c1.buf.info c1.buf.idx { cur with gid := s } with
+            | error er => simp [h3] at h
+            | ok inf => simp [h3, pure, Except.pure] at h
+    | false =>
+      obtain ⟨b', hb', hu, _⟩ := unsafeToConcat_span c.buf st e hreq (by omega) s3 hlen
+      have hcall : c.buf.unsafeToConcatFromOut st (some e) = .ok b' := by
+        have hreq' : ¬ (c.buf.flags &&& Gen.Buf.produceUnsafeToConcat == 0) = true := by simpa using hreq
+        unfold Buf.unsafeToConcatFromOut
+        rw [if_neg hreq', setGlyphFlags_plain_noOutput _ _ _ _ hho]
+        unfold Buf.unsafeToConcat at hb'
+        rw [if_neg hreq'] at hb'
+        exact hb'
+      simp only [Bool.false_eq_true, if_false, hcall, pure, Except.pure, Except.ok.injEq, Prod.mk.injEq, and_true] at h
+      subst h
+      refine ⟨st, e, rs, rfl, by simp [Buf.outArr, hso], s1, s2, s3, hcall, rfl, ?_⟩
+      intro x hx
+      rcases s4 x hx with ⟨i, a1, a2, a3⟩ | ⟨j, a1, a2, a3⟩
+      · have hil : i < c.buf.info.length := by omega
+        exact Or.inl ⟨i, _, a1, a2, a3, List.getElem?_eq_getElem hil,
+          ConcatFlagged.of_upd hu (List.getElem?_eq_getElem hil) (by omega) a3⟩
+      · have hjl : j < c.buf.info.length := by omega
+        exact Or.inr ⟨j, _, a1, a2, a3, List.getElem?_eq_getElem hjl,
+          ConcatFlagged.of_upd hu (List.getElem?_eq_getElem hjl) a2 (by omega)⟩
+
+-- non-vacuity: the backtrack wants 9 and finds 5 (after stepping over the mark): reads = current glyph, out[1] (skipped mark),
+-- out[0] (the glyph that made it fail); span [0, 3)
+example : revMatchI revCtx [[9]] [[3]] = .ok (false, 0, 3, [.inp 2, .out 1, .out 0]) := by rfl
+example : ∃ c', (revMatchI revCtx [[9]] [[3]] >>= revFinish revCtx 7) = .ok (c', false) ∧
+    c'.buf.info.map (·.mask) = [3, 3, 3, 1, 1] ∧
+    revCtx.buf.idx < revCtx.buf.len ∧ revCtx.buf.len ≤ revCtx.buf.info.length ∧ revCtx.buf.haveOutput = false ∧
+    revCtx.buf.sepOut = false ∧ revCtx.buf.flags &&& Gen.Buf.produceUnsafeToConcat ≠ 0 :=
+  ⟨_, rfl, rfl, by decide, by decide, rfl, rfl, by decide⟩
+
+end RbModel.Flags
